@@ -25,6 +25,7 @@ type vNetFaults struct {
 	MinDelay time.Duration // latency of every packet: MinDelay + U[0, Jitter)
 	Jitter   time.Duration
 	CutProb  float64 // probability that a stream is cut after a random number of bytes
+	SendErr  float64 // probability that the transport refuses a packet with a transient local error (full socket buffer)
 }
 
 type vNet struct {
@@ -56,8 +57,9 @@ type vSimTransport struct {
 	streamCh  chan net.Conn
 	down      bool // crashed or shut down: black hole
 	gen       int
-	failSends bool // WriteToAddress returns a local (non-remote) error
-	blackhole bool // down because the whole host is gone: connection attempts are not refused, they go unanswered
+	failSends bool   // WriteToAddress returns a local (non-remote) error
+	failTo    string // ... only for this destination (host:port)
+	blackhole bool   // down because the whole host is gone: connection attempts are not refused, they go unanswered
 }
 
 // attach creates (or replaces, for a restart) the transport of a node
@@ -126,13 +128,29 @@ func (t *vSimTransport) WriteTo(b []byte, addr string) (time.Time, error) {
 }
 
 func (t *vSimTransport) WriteToAddress(b []byte, a Address) (time.Time, error) {
-	if t.failSends {
+	n := t.net
+	if t.failSends || (t.failTo != "" && t.failTo == a.Addr) {
+		// (the buffer was handed to the transport all the same: the tap sees it)
+		n.mu.Lock()
+		tap := n.tapPacket
+		n.mu.Unlock()
+		if tap != nil {
+			tap(t, nil, append([]byte(nil), b...), "send-error")
+		}
 		return time.Time{}, errors.New("simnet: no route to host (local send failure)")
 	}
-	n := t.net
 	now := time.Now()
 	buf := append([]byte(nil), b...)
 	n.mu.Lock()
+	if n.faults.SendErr > 0 && !t.down && n.rng.Float64() < n.faults.SendErr {
+		// a transient local failure (the socket buffer is full): the caller gets a timeout-flavoured error, nothing leaves
+		tap := n.tapPacket
+		n.mu.Unlock()
+		if tap != nil {
+			tap(t, nil, buf, "send-error")
+		}
+		return time.Time{}, &net.OpError{Op: "write", Net: "udp", Err: errVTimeout{}}
+	}
 	dest := n.lookup(a)
 	n.stats.sent++
 	fate := "ok"
